@@ -1,10 +1,20 @@
 /-
   Helper lemmas about the parser model (used by Props/C01.lean and Props/C08.lean).
+  The lemmas are split over several files:
+  * `CharsLemmas`  – `trim`, `lines`
+  * `PvLemmas`     – the value scanner (`pvStep`, `pvLoop`, `parseNextValue`), token boundaries
+  * `ArgLemmas`    – `escape`, `renderArg(s)` against `parseNextValue` / `parseArgsLoop`
+  * `LineLemmas`   – `findLabel`, `findOutputAndCommand`, `parseCommandLine`
+  * `RenderLemmas` – trimming of rendered lines, `parseLine` of a rendered line
+  * `ScriptLemmas` – `parseLinesWith`, the lines of a rendered script
+  * `ErrLemmas`    – the malformed-line classes of C08
 -/
 import DuckModel.Parser
 import DuckModel.Spec.Render
-
-namespace Duck
-open Duck.Spec
-
-end Duck
+import DuckModel.Lemmas.CharsLemmas
+import DuckModel.Lemmas.PvLemmas
+import DuckModel.Lemmas.ArgLemmas
+import DuckModel.Lemmas.LineLemmas
+import DuckModel.Lemmas.RenderLemmas
+import DuckModel.Lemmas.ScriptLemmas
+import DuckModel.Lemmas.ErrLemmas
